@@ -34,6 +34,15 @@ type exerciseStats struct {
 }
 
 // exerciseNode drives every node operation under the budgets; it records the first budget violation.
+// say renders an error the way a caller that logs it would (err.Error() called directly - fmt's verbs would absorb a
+// panic inside Error into the formatted text): rendering the error is part of handling it.
+func say(err error) {
+	if err != nil {
+		_ = err.Error()
+		_ = fmt.Sprintf("%+v %q", err, err)
+	}
+}
+
 func exerciseNode(st *Store, n datamodel.Node, xs *exerciseStats, keysToTry []string) {
 	_ = n.Kind()
 	_ = n.Length()
@@ -205,6 +214,7 @@ func c13Run(m *mnode, extraKeys ...string) (xs exerciseStats, panicked any, stac
 			} else {
 				rn, e = ls.KnownReifiers[reifier](lc0, pn, ls)
 			}
+			say(e)
 			if e != nil || rn == nil {
 				return
 			}
